@@ -112,4 +112,47 @@ theorem coo_adjoint (nnz : ℕ) (val : ℕ → ℝ) (row col : ℕ → ℕ) (v w
   intro k _
   ring
 
+/-- I1 (array2slice): constant differences give the closed form of an arithmetic progression. -/
+theorem ap_closed_form (n : ℕ) (a : ℕ → ℤ) (s : ℤ)
+    (h : ∀ k, k + 1 < n → a (k + 1) - a k = s) :
+    ∀ k, k < n → a k = a 0 + k * s := by
+  intro k
+  induction k with
+  | zero => intro _; simp
+  | succ m ih =>
+    intro hm
+    have h1 := h m hm
+    have h2 := ih (Nat.lt_of_succ_lt hm)
+    push_cast
+    linarith
+
+/-- I2: an arithmetic progression whose two end points are non-negative is non-negative throughout. -/
+theorem ap_nonneg (n : ℕ) (a : ℕ → ℤ) (s : ℤ)
+    (h : ∀ k, k + 1 < n → a (k + 1) - a k = s) (hn : 0 < n)
+    (h0 : 0 ≤ a 0) (hl : 0 ≤ a (n - 1)) : ∀ k, k < n → 0 ≤ a k := by
+  intro k hk
+  have hc := ap_closed_form n a s h
+  have hk' := hc k hk
+  have hl' := hc (n - 1) (Nat.sub_lt hn Nat.one_pos)
+  rw [hk']
+  rcases le_or_gt 0 s with hs | hs
+  · have : (0 : ℤ) ≤ (k : ℤ) * s := mul_nonneg (Int.natCast_nonneg k) hs
+    linarith
+  · -- s < 0: a k ≥ a (n-1) because k ≤ n-1
+    have hkn : (k : ℤ) ≤ ((n - 1 : ℕ) : ℤ) := by
+      exact_mod_cast Nat.le_sub_one_of_lt hk
+    have : ((n - 1 : ℕ) : ℤ) * s ≤ (k : ℤ) * s := by
+      exact mul_le_mul_of_nonpos_right hkn hs.le
+    rw [hl'] at hl
+    linarith
+
+/-- I3: an increasing arithmetic progression starting at a non-negative value is non-negative. -/
+theorem ap_nonneg_inc (n : ℕ) (a : ℕ → ℤ) (s : ℤ)
+    (h : ∀ k, k + 1 < n → a (k + 1) - a k = s) (hs : 0 ≤ s) (h0 : 0 ≤ a 0) :
+    ∀ k, k < n → 0 ≤ a k := by
+  intro k hk
+  rw [ap_closed_form n a s h k hk]
+  have : (0 : ℤ) ≤ (k : ℤ) * s := mul_nonneg (Int.natCast_nonneg k) hs
+  linarith
+
 end OmLemmas
